@@ -39,8 +39,11 @@ InvFaithful == FaithfulTo(res, out, L)
 InvDistinguishable == Distinguishable(case.n)
 \* a class-specific result is the program's or it is not handed out; it is the caller's own
 \* input only where the program was given it instead of being asked for it (the guide tree)
-InvNeverTheCallersMatrix == extra.dist.k = "value" => extra.dist.m # CallerMatrix(case.n)
-InvMatrixIffAsked == (extra.dist.k = "value") = (case.kind = "clustalo" /\ Uses(case.setters, "full"))
+InvNeverTheCallersMatrix == \A a \in extra.dist : a.k = "value" => a.m # CallerMatrix(case.n)
+InvMatrixWhenAsked ==
+  /\ extra.dist # {}
+  /\ (case.kind = "clustalo" /\ Uses(case.setters, "full")) => (\A a \in extra.dist : a.k = "value")
+  /\ (case.kind # "clustalo") => (\A a \in extra.dist : a.k = "nogetter")
 InvGuards == guard.getter_created = "AppStateError" /\ guard.setter_joined = "AppStateError"
              /\ guard.getter_joined = "ok"
 =============================================================================
